@@ -114,7 +114,7 @@ func runEngineA(cfg *RunConfig, rc *Recorder, res *Result) error {
 
 	hbMs := cfg.paramInt("hb", 40+rng.Intn(80))
 	seg := cfg.paramInt("seg", 1024*(1+rng.Intn(4)))
-	retain := 1 + rng.Intn(2)
+	retain := cfg.paramInt("retain", 1+rng.Intn(2))
 	opt := raft.Options{
 		HeartbeatTimeout: time.Duration(hbMs) * time.Millisecond,
 		PromoteThreshold: time.Duration(hbMs) * time.Millisecond,
